@@ -75,6 +75,13 @@ def _eval_requirement(body, ap, req):
                 continue
             if w.endswith('Iterator::all') and g.truth is not True:
                 continue
+        if req.get('quantifier') == 'forall' and getattr(g, 'quant', None):
+            # what the predicate of a quantifier tests counts for every element only under the same polarity
+            q = g.quant
+            if q.endswith('Iterator::any') and g.truth is not False:
+                continue
+            if q.endswith('Iterator::all') and g.truth is not True:
+                continue
         if callee_any and not (g.kind == 'call' and any(_name_match(c, g.what or '') for c in callee_any)):
             if not (ops_any and g.kind == 'cmp' and g.what in ops_any):
                 continue
